@@ -598,6 +598,8 @@ def run(chk: core.Check) -> int:
         "assumed, not modelled: importlib find_spec (table computed by the harness from the source tree), setuptools.find_packages (unfiltered list computed by the real function, include/exclude applied by the model as equality on metacharacter-free names), the parsers/emitters called per symbol (three emit kinds raise TypeError for every symbol; the others return on the generated symbols), black, the OS",
         "harness/impl/c20_runner.py: abstraction of a Python file to its top-level statements (def / from-import / __all__ / other) and ast.walk order of ImportFrom nodes; audit hook vocabulary (open-for-write, os.mkdir/remove/rmdir/rename/replace/…); byte-code caches are switched off in the child (sys.dont_write_bytecode): cache files the interpreter writes next to imported sources are not counted as exmod's writes",
         "after exmod has overwritten one of its own input files (known finding C20-src-init-overwrite) the tie is only checked up to that write",
+        "a source tree whose `from … import` names a module the tree cannot resolve but the interpreter can (exmod ignores the import level, so `from .types import x` reads the stdlib `types`) is outside the model's find_spec table: the model abstains (counted in outside_domain_kinds), the oracle is still evaluated",
+        "a forked exmod child that does not answer within 120 s is re-run alone with a 600 s limit; only a second failure stops the check, with exit 2 (never a verdict)",
         "oracle for excluded modules: only evaluated when black-/whitelist consist of fully-qualified names of packages/modules of the tree; conservative reading (blacklist entry = exactly that module; whitelist is hierarchical)",
     ]
     private = None
@@ -658,7 +660,7 @@ def run(chk: core.Check) -> int:
         for p in Path(os.environ.get("C20_TMP", "/tmp")).glob("c20_*"):
             if p.is_dir() and time.time() - p.stat().st_mtime > 3600:
                 shutil.rmtree(p, ignore_errors=True)
-    return chk.finish("package trees 1-3 levels (modules with classes/functions, re-exports through __init__/__all__, aliases, nested and relative imports, defs in __init__) x emit kind(s) x recursive x black/whitelist subsets (FQNs, relative names, both lists) x dry/real x output absent/empty/hand-written __init__.py/earlier real run; "
+    return chk.finish("package trees 1-3 levels (modules with classes/functions, re-exports through __init__/__all__, aliases, nested and relative imports, defs in __init__; 40% of the trees with awkward legal names for classes/functions/modules/sub-packages: builtins and exceptions, soft keywords, keyword+underscore, leading underscore/dunder, digits, non-ASCII, 109-character, case-only differences, stdlib module names) x emit kind(s) x recursive x black/whitelist subsets (FQNs, relative names, both lists) x dry/real x output absent/empty/hand-written __init__.py/earlier real run; "
                       "non-trivial = the run reaches emit_file_on_hierarchy and (dry run, or real run inside Exmod.inDomain = the domain of confined_partial, evaluated by the driver); compared: ordered effect list, printed lines, exception class, final files/dirs; oracle: before/after snapshot (paths, sizes, sha1, mtime_ns)")
 
 
